@@ -204,6 +204,12 @@ func (r *ParseRequestResponse) injectFile(upload *Upload, paths []string) error 
 					return fmt.Errorf("file index %d out of bound %d", index, len(v))
 				}
 				fileVal := v[index]
+				// an entry of a list of input objects: keep stepping through it (ex: variables.input.docs.0.file)
+				if entry, ok := fileVal.(map[string]interface{}); ok && i+2 < len(parts) {
+					variables = entry
+					i++
+					continue
+				}
 				if fileVal != nil {
 					return fmt.Errorf("expected nil value, got %v", fileVal)
 				}
